@@ -913,6 +913,7 @@ pub fn run_c12_strings(a: &WorkerArgs) -> WorkerReport {
 // ---------------------------------------------------------------------------------------------
 // C06: sorted consumption over zero-sized item / priority types (0, 1 elements; every form)
 
+#[cfg(feature = "std")]
 pub fn zst_sorted_battery() -> Option<Failure> {
     use priority_queue::{DoublePriorityQueue, PriorityQueue};
     #[derive(PartialEq, Eq, Hash, PartialOrd, Ord, Clone, Debug)]
